@@ -285,6 +285,114 @@ impl Sweep for Limit {
     }
 }
 
+/// Whatever the interpreter holds as its listing must load back: lines typed at
+/// the prompt around the 1024-byte limit with multi-byte text (the limit is in
+/// bytes at the prompt and in LOAD alike), and programs renumbered up to the
+/// last line number.
+struct Stored;
+
+impl Sweep for Stored {
+    fn name(&self) -> String {
+        "stored-listing-loads-back".into()
+    }
+    fn shards(&self) -> usize {
+        2
+    }
+    fn run_shard(&self, shard: usize, ctx: &mut Ctx) {
+        use crate::driver::Session;
+        let loads_back = |listing: &[String]| -> Option<String> {
+            let mut l = Listing::default();
+            for t in listing {
+                if let Err(e) = l.load_str(t) {
+                    return Some(format!("LOAD of {:?}... ({} bytes, {} characters) says {}", t.chars().take(24).collect::<String>(), t.len(), t.chars().count(), e));
+                }
+                let n = BLine::new(t).number();
+                match n {
+                    None => return Some(format!("listed line {:?}... has no line number when entered again", t.chars().take(24).collect::<String>())),
+                    Some(n) => {
+                        if l.line(n as usize).map(|(x, _)| x).as_deref() != Some(t.as_str()) {
+                            return Some(format!("line {} does not come back as listed", n));
+                        }
+                    }
+                }
+            }
+            None
+        };
+        if shard == 0 {
+            for c in ["x", "é", "日", "😀"] {
+                for head in ["10 PRINT \"", "10 REM ", "10 A$=\"q\":B$=\""] {
+                    for bytes in [900usize, 1016, 1020, 1021, 1022, 1023, 1024, 1025, 1026, 1027, 1028, 1032, 1100, 1500, 2047, 2048, 2052, 4096] {
+                        let tail = if head.ends_with('"') { "\"" } else { "" };
+                        if bytes < head.len() + tail.len() + c.len() {
+                            continue;
+                        }
+                        let reps = (bytes - head.len() - tail.len()) / c.len();
+                        for r in [reps, reps + 1] {
+                            let line = format!("{}{}{}", head, c.repeat(r), tail);
+                            if !ctx.begin(&format!("typed at the prompt: {}{}*{}{} ({} bytes, {} characters)", head, c, r, tail, line.len(), line.chars().count())) {
+                                continue;
+                            }
+                            let res = guard(|| {
+                                let mut s = Session::new();
+                                s.enter(&line);
+                                s.take();
+                                s.listing_text()
+                            });
+                            match res {
+                                Err(p) => ctx.violation(&crate::engine::panic_class(&p), p),
+                                Ok(listing) => {
+                                    ctx.nontrivial(hash64(&(c, head, listing.is_empty(), line.len().min(1030))));
+                                    if let Some(why) = loads_back(&listing) {
+                                        ctx.violation("accepted-line-does-not-load", why);
+                                    }
+                                }
+                            }
+                        }
+                    }
+                }
+            }
+        } else {
+            let progs: [[&str; 3]; 3] = [
+                ["10 PRINT \"a\":GOTO 20", "20 GOSUB 30:END", "30 RETURN"],
+                ["65000 PRINT \"a\"", "65010 GOTO 65000", "65529 END"],
+                ["0 REM", "1 GOTO 0", "65529 END"],
+            ];
+            for p in progs {
+                for new in [0u32, 1, 65000, 65500, 65519, 65520, 65525, 65527, 65528, 65529] {
+                    for old in ["", "0", "20", "65010"] {
+                        for step in [1u32, 2, 3, 5, 10, 100, 32768, 65529] {
+                            let cmd = format!("RENUM {},{},{}", new, old, step);
+                            if !ctx.begin(&format!("{} // {}", p.join(" / "), cmd)) {
+                                continue;
+                            }
+                            let res = guard(|| {
+                                let mut s = Session::new();
+                                for l in p {
+                                    s.enter(l);
+                                }
+                                s.take();
+                                s.enter(&cmd);
+                                s.take();
+                                s.listing_text()
+                            });
+                            match res {
+                                Err(pn) => ctx.violation(&crate::engine::panic_class(&pn), pn),
+                                Ok(listing) => {
+                                    ctx.nontrivial(hash64(&listing));
+                                    if let Some(why) = loads_back(&listing) {
+                                        ctx.violation("renumbered-listing-does-not-load", format!("{} : {}", cmd, why));
+                                    }
+                                }
+                            }
+                        }
+                    }
+                }
+            }
+        }
+        ctx.sample();
+    }
+}
+
 impl Check for C05 {
     fn id(&self) -> &'static str {
         "C05"
@@ -295,6 +403,7 @@ impl Check for C05 {
         let words = vec!["r", "e", "m", "R", "E", "M", "'", " ", "1", ":", "\"", "t", "o", "g", "T", "O", "G", "$"];
         vec![
             Box::new(Limit),
+            Box::new(Stored),
             Box::new(Strings { n: tier.pick(4, 5), alpha: sigma5(), label: "sigma5" }),
             Box::new(Strings { n: tier.pick(6, 7), alpha: numeric, label: "numeric" }),
             Box::new(Strings { n: tier.pick(6, 8), alpha: operators, label: "operators" }),
